@@ -65,7 +65,10 @@ func sizedStore(ls *ipld.LinkSystem, lp datamodel.LinkPrototype, n datamodel.Nod
 	lnk, err := wrappedLinkSystem(ls, func(bc int) {
 		byteCount = bc
 	}).Store(ipld.LinkContext{}, lp, n)
-	return lnk, uint64(byteCount), err
+	if err != nil {
+		return nil, 0, err
+	}
+	return lnk, uint64(byteCount), nil
 }
 
 type byteCounter struct {
